@@ -4,8 +4,10 @@ import io
 import tokenize
 
 GLOBAL_CLASSES = {"Symbol", "Integer", "Float", "Rational"}
-PRIORITY = ["string", "global-class", "call", "bracket", "comma", "compare", "comment",
-            "continuation", "attr", "other-op", "arith", "untokenizable"]
+# attribute access and keyword arguments come first: no accepted string of the unchanged tree
+# contains them, so they must never be masked by a construct that is a listed finding
+PRIORITY = ["attr", "keyword-arg", "string", "global-class", "call", "bracket", "comma", "compare", "comment",
+            "continuation", "other-op", "arith", "untokenizable"]
 
 
 def vocab_category(s):
@@ -44,6 +46,8 @@ def vocab_category(s):
                 nxt = next(((t2, v2) for t2, v2 in toks[i + 1:] if t2 not in (tokenize.NL, tokenize.NEWLINE)), None)
                 if nxt and nxt[1] == "(" and val != "sqrt":
                     cats.add("call")
+                if nxt and nxt == (tokenize.OP, "="):
+                    cats.add("keyword-arg")
         elif ty == tokenize.OP:
             if val in ("*", "**", "/", "(", ")"):
                 pass
